@@ -164,7 +164,12 @@ class Section(Entity):
 
         prop = Property.create_new(self.file, self, properties,
                                    name, dtype, shape, oid)
-        prop.values = vals
+        try:
+            prop.values = vals
+        except Exception:
+            # do not leave a property without its values behind
+            del properties[name]
+            raise
 
         return prop
 
